@@ -432,11 +432,44 @@ def literals_of(run, g, rd, tnode, polarity, env=None):
     return r
 
 
-def guards_of(g, n):
+def _ifexp_conds(run, g, n, within):
+    """Literals implied by the conditional expressions of node n that enclose the sub-expression ``within``."""
+    out = []
+    roots = list(n.exprs or ([n.ast] if n.ast is not None else []))
+
+    def rec(e, conds):
+        if e is within:
+            out.extend(conds)
+            return True
+        if isinstance(e, ast.IfExp):
+            if rec(e.body, conds + [(e.test, True)]) or rec(e.orelse, conds + [(e.test, False)]) or rec(e.test, conds):
+                return True
+            return False
+        for c in ast.iter_child_nodes(e):
+            if rec(c, conds):
+                return True
+        return False
+    for r in roots:
+        if rec(r, []):
+            break
+    res = []
+    for (test, pol) in out:
+        forms = cond_forms(run, g, n, test, pol) if run is not None else {(U(test), pol)}
+        res.append((test, pol, forms or {(U(test), pol)}))
+    return res
+
+
+def guards_of(g, n, within=None):
     """[(atom text, polarity, test node)] for every branch edge that dominates node n - every equivalent form of each
-    atom is listed (same test node)."""
+    atom is listed (same test node).  ``within``: a sub-expression of n; conditions of conditional expressions that
+    enclose it are included."""
     run = getattr(g, 'run', None)
     out = []
+    if within is not None:
+        for (test, pol, forms) in _ifexp_conds(run, g, n, within):
+            pseudo = _PseudoTest(test)
+            for (txt, p) in sorted(forms):
+                out.append((txt, p, pseudo))
     for (t, lab) in g.edge_guards(n):
         if t.kind == 'test':
             forms = None
@@ -451,10 +484,17 @@ def guards_of(g, n):
     return out
 
 
-def guard_groups(g, n):
+class _PseudoTest(object):
+    kind = 'test'
+
+    def __init__(self, astnode):
+        self.ast = astnode
+
+
+def guard_groups(g, n, within=None):
     """[(test node, set of (text, pol))] - one entry per dominating test."""
     out = {}
-    for (txt, pol, t) in guards_of(g, n):
+    for (txt, pol, t) in guards_of(g, n, within):
         if t.kind == 'test':
             out.setdefault(t, set()).add((txt, pol))
     return list(out.items())
@@ -778,9 +818,9 @@ def lin_cmp(text_or_expr, polarity=True, alias=None):
 
 
 # ------------------------------------------------------------------------------ exact atom matching
-def guard_atom_sets(g, n):
+def guard_atom_sets(g, n, within=None):
     """[frozenset(forms)] - one per test whose branch edge dominates n."""
-    return [frozenset(forms) for (t, forms) in guard_groups(g, n)]
+    return [frozenset(forms) for (t, forms) in guard_groups(g, n, within)]
 
 
 def path_atom_sets(l):
